@@ -9,15 +9,15 @@ Lemma sim_handshake_meets_spec sc :
                (fun hn => mem_bytes hn (sc_names sc)).
 Proof.
   intros Ht. unfold openssl_spec, sim_handshake. rewrite Ht. split.
-  - intros c Hvm Hch. rewrite Hvm. simpl.
-    destruct (sc_chain sc); simpl in *; try reflexivity. now rewrite Hch.
+  - intros c Hvm Hex _ Hch. rewrite Hvm, Hex. simpl.
+    destruct (sc_chain sc); simpl in *; try reflexivity. rewrite Hch. reflexivity.
   - intros c hn Hvm Hck Hsn Hn. rewrite Hvm, Hck, Hsn, Hn. simpl.
-    destruct (sc_chain sc); simpl; try reflexivity.
-    destruct (obytes_eqb (wc_cafile c) (Some cafile)); reflexivity.
+    match goal with |- (if negb ?b then _ else _) = _ => destruct b end; reflexivity.
 Qed.
 
+
 Definition count {A} (l : list A) : N := fold_left (fun n _ => n + 1) l 0.
-Lemma sweep_size : map (fun hp => count (sweep_table hp)) sweep_hosts = [20880; 20880; 20880].
+Lemma sweep_size : map (fun hp => count (sweep_table hp)) sweep_hosts = [26064; 26064; 26064].
 Proof. vm_compute. reflexivity. Qed.
 
 Lemma sweep_ok : forallb (fun host => forallb (sweep_check host) (sweep_table host)) sweep_hosts = true.
